@@ -412,5 +412,8 @@ def run(ctx, report):
     from common import Only
     from rules import c05
     # "the builder's pairs plus id=v4 and the signer's public key", "an update re-keys": the typestate verdicts of C05
-    c05.run(ctx, Only(report, {"TS": "TS", "WRAP": "WRAP", "BUILD": "KEYED-BUILD"}))
+    c05.run(ctx, Only(report, {"TS": "TS", "WRAP": "WRAP", "BUILD": "KEYED-BUILD", "SIGN": "SIGN"}))
+    from rules import c07
+    # "a failing call reports the error kind that matches its cause": in particular it reports an error at all
+    c07.run(ctx, Only(report, {"ONCE": "ERRKIND"}, keys=lambda r, k: k.endswith("swallows-error")))
 
